@@ -78,7 +78,7 @@ MUTANTS = [
     {"name": "eval-numkeys-unclamped", "file": "src/proxy/executor.rs", "old": "        let key_num = std::cmp::min(key_num, cmd_len);\n", "new": "        let _ = cmd_len;\n", "expect": "C16.D3:range-iter:proxy::executor::ForwardHandler::handle_multi_key_eval_cmd"},
     {"name": "rangemap-unbounded", "file": "src/common/cluster.rs", "old": "let end = min(range.end(), SLOT_NUM - 1);", "new": "let end = max(range.end(), 0);", "expect": "C16.D3:range-loop"},
     {"name": "recursion-via-helper", "file": "src/protocol/stateless.rs", "old": "fn parse_len(buf: &[u8]) -> Result<(i64, usize), ParseError> {", "new": "#[allow(dead_code)]\nfn skip_nested(buf: &[u8]) -> usize {\n    match buf.first() {\n        Some(b'*') => 1 + skip_nested(buf.get(1..).unwrap_or(&[])),\n        _ => 0,\n    }\n}\n\nfn parse_len(buf: &[u8]) -> Result<(i64, usize), ParseError> {\n    let _ = skip_nested(buf);", "expect": "C16.D2"},
-    {"name": "slowlog-rate-unclamped", "file": "src/proxy/slowlog.rs", "old": "cmp::max(1, ", "new": "cmp::max(0, ", "expect": "C16.D1"},
+    {"name": "slowlog-rate-unclamped", "file": "src/proxy/slowlog.rs", "old": "        let slowlog_sample_rate = max(1, slowlog_sample_rate);", "new": "        let slowlog_sample_rate = max(0, slowlog_sample_rate);", "expect": "C16.D1"},
 ]
 
 
